@@ -21,6 +21,17 @@ bytes (the harness maps the printed keys through sha256 before comparing with th
                                                                                             → `ok` | `not-found`
   `restart`                           new manager, `load_data()`                            → `loaded <#> <#added> <t>|<t>|…` | `error no-state-class`
   `sched <u>,<u>,…`                   `_get_queued_transfers()` with the listed users offline → `dl=<ident>|… ul=<user>|…`
+                                      (also what the harness's `cycle` op is compared with: the peers told by the first
+                                      management cycle of the real job)
+  `prev <fields> ok=<0|1>`            environment: an entry for this transfer as the pinned writer leaves it, under the
+                                      current (ok=0) or the pre-fix (ok=1) key                → `ok`
+  `dupkey <u> <p> <d>`                environment: the stored entry of (u,p,d) is also put under the pre-fix key → `ok` | `not-found`
+  `loadc <ident>;<ident>;…`           new manager, `load_data()` as its own task up to the first suspended
+                                      `TransferAddedEvent` listener; the idents give the order in which shelve hands out
+                                      the entries                → `loading <#transfers> <#added> <ident just registered>` |
+                                                                   `loaded <#> <#added> <t>|…` | `error no-state-class`
+  `loadr`                             that listener resumes, up to the next one / the end of `read_cache()`
+                                                                 → `loading …` | `loaded …` | `no-pending`
 
 `<fields>` = space separated `key=value`; strings `x<hex of utf-8>`, `-` = None.
 -/
@@ -143,6 +154,19 @@ def parseOp (line : String) : Option Op :=
   | ["restart"] => some .restart
   | ["sched"] => some (.sched [])
   | ["sched", us] => ((us.splitOn ",").mapM parseStr).map .sched
+  | "prev" :: toks => do
+    let kvs ← parseFields toks
+    let t ← parseTransfer (kvs.filter (·.1 ≠ "ok"))
+    let k ← (← lookup kvs "ok") |> parseBool
+    pure (.prev t k)
+  | ["dupkey", u, p, d] => (parseIdent u p d).map .dupKey
+  | ["loadc"] => some (.loadCall [])
+  | ["loadc", ids] =>
+    ((ids.splitOn ";").mapM fun (i : String) =>
+      match i.splitOn "," with
+      | [u, p, d] => parseIdent u p d
+      | _ => none).map .loadCall
+  | ["loadr"] => some .loadStep
   | _ => none
 
 def showIdents (l : List Ident) : String := ";".intercalate (l.map fun i => showIdent i.1 i.2.1 i.2.2)
@@ -173,6 +197,14 @@ def render (op : Op) (s : S) (out : Out) : String :=
   | .restart, .loaded =>
     s!"loaded {n} {s.mgr.addedEvents} " ++ "|".intercalate (s.mgr.transfers.map (showTransfer s.mgr.id))
   | .restart, _ => "error no-state-class"
+  | _, .loaded =>
+    s!"loaded {n} {s.mgr.addedEvents} " ++ "|".intercalate (s.mgr.transfers.map (showTransfer s.mgr.id))
+  | _, .loading =>
+    s!"loading {n} {s.mgr.addedEvents} " ++
+      (match s.mgr.transfers.getLast? with
+       | some t => showIdent t.user t.path t.dir
+       | none => "-")
+  | _, .loadError => "error no-state-class"
   | .sched offl, _ =>
     let r := eligible (fun u => offl.contains u) s.mgr.transfers
     "dl=" ++ "|".intercalate (r.1.map fun t => showIdent t.user t.path t.dir) ++
